@@ -33,6 +33,7 @@ REQUIRED_THEOREMS = [
     "TapkeeVerif.Landmarks.landmarks_distinct_and_counted_compiled",
     "TapkeeVerif.Landmarks.selectLandmarks_defined",
     "TapkeeVerif.Landmarks.lmds_landmarks_eq_mds_of_subset",
+    "TapkeeVerif.Landmarks.landmark_index_discipline",
     "TapkeeVerif.Landmarks.triangulate_fixes_landmarks",
     "TapkeeVerif.Landmarks.lmds_exact_recovery",
     "TapkeeVerif.Landmarks.ratio_one_eq_nonlandmark",
